@@ -96,6 +96,8 @@ struct BWorld {
   uint64_t last_visit_seq = 0;
   bool terminal = false;
   int in_flight = 0, max_in_flight = 0;
+  int throw_at = -1;   // param bthrow=1: the per-element function throws at this index (library bulk_schedule only)
+  bool threw = false;
   OpRec rec;
   unifex::inplace_stop_source stop;
 };
@@ -129,9 +131,26 @@ void bulk_hook(OpRec*, void* arg) {
   KIT_CHECK(w->in_flight == 0, "c17.after-terminal", "terminal signal delivered while %d set_next calls are still running", w->in_flight);
 }
 
+struct bulk_throw { long code; };
+template <class Sched, class Policy, class Fn>
+void run_bulk_fn(BWorld* w, Sched sched, Policy pol, Fn fn);
 template <class Sched, class Policy>
 void run_bulk(BWorld* w, Sched sched, Policy pol) {
-  auto snd = unifex::bulk_join(unifex::bulk_transform(unifex::bulk_schedule(sched, (size_t)w->n), [w](size_t i) noexcept { visit(w, i); }, pol));
+  if constexpr (!std::is_same_v<Sched, par_sched>) {
+    if (w->throw_at >= 0) {
+      // a per-element function that may throw: set_next is not noexcept, the exception unwinds to the scheduler's operation, which answers set_error
+      run_bulk_fn(w, sched, pol, [w](size_t i) {
+        visit(w, i);
+        if ((int)i == w->throw_at) { { usim::np_scope np; w->threw = true; } throw bulk_throw{(long)i}; }
+      });
+      return;
+    }
+  }
+  run_bulk_fn(w, sched, pol, [w](size_t i) noexcept { visit(w, i); });
+}
+template <class Sched, class Policy, class Fn>
+void run_bulk_fn(BWorld* w, Sched sched, Policy pol, Fn fn) {
+  auto snd = unifex::bulk_join(unifex::bulk_transform(unifex::bulk_schedule(sched, (size_t)w->n), std::move(fn), pol));
   started_op<Sched, decltype(snd)> op;
   if (w->stop_mode == 1) w->rec.request_stop();
   std::thread stopper([w] {
@@ -181,6 +200,7 @@ void body_bulk(void*) {
     w->stop_at = last_chunk + draw(w->n - last_chunk);
   }
   w->stop_yields = draw_small(40);
+  if (usim_param_int("bthrow", 0) && w->sched <= 2 && w->n > 0 && draw(2) == 0) w->throw_at = draw(w->n);
   w->rec.what = "bulk";
   w->rec.oracle_double = "c17.after-terminal";
   w->rec.stop = &w->stop;
@@ -205,8 +225,12 @@ void body_bulk(void*) {
     usim::np_scope np;
     OpRec& r = w->rec;
     KIT_CHECK(r.completions == 1, "c17.after-terminal", "bulk operation completed %d times", r.completions);
-    KIT_CHECK(r.channel != CH_ERROR, "c17.partial-without-stop", "bulk operation completed with an error");
-    if (r.channel == CH_VALUE) {
+    if (w->threw) {
+      KIT_CHECK(r.channel == CH_ERROR, "c17.throw-outcome", "the per-element function threw at index %d but the bulk operation completed with %s", w->throw_at, ch_name(r.channel));
+      usim_probe("throwing element function: error delivered");
+    } else KIT_CHECK(r.channel != CH_ERROR, "c17.partial-without-stop", "bulk operation completed with an error");
+    if (r.channel == CH_ERROR) {
+    } else if (r.channel == CH_VALUE) {
       KIT_CHECK(w->total == w->n, "c17.partial-without-stop", "bulk operation completed with value after visiting only %d of %d indices", w->total, w->n);
       usim_probe("all indices visited");
     } else {
